@@ -79,7 +79,9 @@ func (cb *CircuitBreaker) RecordSuccess() {
 		}
 
 	case CircuitOpen:
-		// No action needed for open state on success
+		// A success that arrives while open (a request admitted before the breaker
+		// tripped) does not close the breaker, but it does end the failure streak
+		cb.failures.Store(0)
 	}
 }
 
